@@ -1200,8 +1200,7 @@ class Hdf5Loader:
             state = self.load(subpath + 'state')
             if 'state_setter' in h5gr:
                 state_setter = self.load(subpath + 'state_setter')
-                obj = state_setter(obj, state)
-                self.memorize_load(h5gr, obj)  # overwrites old memo entry
+                state_setter(obj, state)  # like pickle: modifies `obj` in place, return value is ignored
             else:
                 # see pickle._Unpickler.load_build
                 setstate = getattr(obj, '__setstate__', None)
